@@ -237,7 +237,9 @@ impl Polynomial<Cmplx> {
             roots[2] = roots[0];
         } else {
             let sqrt = (- 27. * a * a * dis).sqrt();
-            let base = if d1 < Cmplx::zero() { d1 - sqrt } else { d1 + sqrt } / 2.;
+            // Take the sign that avoids cancellation in d1 +- sqrt (for complex d1 the
+            // lexicographic test d1 < 0 says nothing about which of the two is larger)
+            let base = if ( d1 + sqrt ).abs() < ( d1 - sqrt ).abs() { d1 - sqrt } else { d1 + sqrt } / 2.;
             let k = base.pow( &Cmplx::new( 1. / 3.0, 0.0 ) );
             roots[0] = -(b + k + d0 / k) / ( 3. * a );
             let u = Cmplx::new( -0.5, (3.0_f64).sqrt() / 2.0 );
